@@ -11,7 +11,10 @@ RULE = ("Schema = AST of the checked-in liteclient/lite_api.tl (tools/tl2json.py
         "on the wire and return Dec(result type, scripted answer) (TlSem_Trace decides). C->S: schema-driven random values (all byte-string "
         "lengths 0..1100, around 2^16, 2^24-1 in thorough; vectors; nested sums) through MarshalTL / UnmarshalTL(bytes + tail, truncations) of "
         "every generated type and of tl.Int256, ton.AccountID, ton.BlockIDExt, LiteServerSignatureSet, each event judged by TlSem_Trace "
-        "(bytes = Enc(AST, type, value); Dec(AST, type, bytes) = value and unread tail). Precondition (not TLC): gofmt(go run generator.go) "
+        "(bytes = Enc(AST, type, value); Dec(AST, type, bytes) = value and unread tail). Long vectors: for every vector field of the schema, lengths just below/above "
+        "65536/(Go element size+1) and 65536/size (sizes reported by the driver via reflect) and 2000/14000/70000 for small elements, last field and followed by "
+        "other fields, through all routes (codec both directions, LiteapiRequestDecoder, client calls incl. answers): the decoded vector must have the wire count "
+        "of elements and the following fields must be intact. Precondition (not TLC): gofmt(go run generator.go) "
         "== checked-in liteclient/generated.go and tlb/integers.go. distinct = accepted events + vectors replayed.")
 
 TL = os.path.join(vlib.REPO, "liteclient", "lite_api.tl")
@@ -140,12 +143,10 @@ def gen_vectors(ck, astp, ast):
     per = (total + nsh - 1) // nsh
     njs = 8
     def one(i):
-        if i >= nsh:                 # long-vector jobs: vectors JOB_BASE .. JOB_BASE + len(jobs) - 1, in njs interleaved shards
-            mine = list(range(i - nsh, len(jobs), njs))
-            out = []
-            for j in mine:           # one state each (From = To): a job is a few hundred KB
-                out += run_gen(i, JOB_BASE + j, JOB_BASE + j, "job%03d" % j)
-            return out
+        if i >= nsh:                 # long-vector jobs: vectors JOB_BASE .. JOB_BASE + len(jobs) - 1, in njs shards
+            per_j = (len(jobs) + njs - 1) // njs          # a contiguous range of jobs per TLC run
+            lo, hi = (i - nsh) * per_j, min(len(jobs), (i - nsh + 1) * per_j) - 1
+            return run_gen(i, JOB_BASE + lo, JOB_BASE + hi, "jobs%02d" % (i - nsh)) if lo <= hi else []
         lo, hi = i * per, min(total, (i + 1) * per) - 1
         if lo > hi:
             return []
